@@ -139,3 +139,28 @@ func zeroOf(s *Sort) *Term {
 	}
 	return nil
 }
+
+// topBit returns (x, t) such that the most significant bit of e is bit t of x.
+func topBit(e *Term) (*Term, int) {
+	switch e.Op {
+	case "extract":
+		return e.Args[0], e.P[0]
+	case "sign_extend":
+		return topBit(e.Args[0])
+	}
+	return e, e.S.W - 1
+}
+
+// replicatedBit reports whether e consists only of copies of bit t of x.
+func replicatedBit(e *Term) (*Term, int, bool) {
+	switch {
+	case e.Op == "extract" && e.P[0] == e.P[1]:
+		return e.Args[0], e.P[0], true
+	case e.Op == "sign_extend" && e.Args[0].S.W == 1:
+		x, t := topBit(e.Args[0])
+		return x, t, true
+	case e.S.W == 1 && e.Op != "bvconst":
+		return e, 0, true
+	}
+	return nil, 0, false
+}
